@@ -706,4 +706,507 @@ theorem C17_proc_exactly_once {P β : Type} (o : BatchOps P) (flat : P → List 
     · exact hr.2.2 hm e h
     · exact hs.2 hm e h
 
+
+/-! ### metadata isolation for the whole processor -/
+
+/-- `akey x` = the metadata group item `x` arrived with: every `Consume` call's items carry that call's group -/
+def OpsTagged {P β : Type} (flat : P → List β) (akey : β → Key) : List (POp P) → Prop
+  | [] => True
+  | .arrive key p :: ops => (∀ x ∈ flat p, akey x = key) ∧ OpsTagged flat akey ops
+  | .advance _ :: ops => OpsTagged flat akey ops
+
+/-- everything pending in a shard arrived with that shard's group -/
+def KInv {P β : Type} (flat : P → List β) (akey : β → Key) (shards : List (Shard P)) : Prop :=
+  ∀ s ∈ shards, ∀ x ∈ flat s.data, akey x = s.key
+
+theorem step_iso {P β : Type} (o : BatchOps P) (c : Cfg) (flat : P → List β) (akey : β → Key) (s s' : Shard P)
+    (es : List (Emit P)) (extra : List β) (st : ShardStep o c flat s s' es extra)
+    (hold : ∀ x ∈ flat s.data, akey x = s.key) (hex : ∀ x ∈ extra, akey x = s.key) :
+    (∀ x ∈ flat s'.data, akey x = s'.key) ∧ (∀ e ∈ es, ∀ x ∈ flat e.p, akey x = e.key) := by
+  have hall : ∀ x ∈ flatEmits flat es ++ flat s'.data, akey x = s.key := by
+    intro x hx
+    rcases List.mem_append.mp (st.perm.subset hx) with h | h
+    · exact hold x h
+    · exact hex x h
+  refine ⟨?_, ?_⟩
+  · intro x hx; rw [st.key]; exact hall x (List.mem_append.mpr (Or.inr hx))
+  · intro e he x hx
+    rw [st.ekey e he]
+    exact hall x (List.mem_append.mpr (Or.inl (List.mem_flatMap.mpr ⟨e, he, hx⟩)))
+
+theorem kinv_replace {P β : Type} (flat : P → List β) (akey : β → Key) (shards : List (Shard P)) (s s' : Shard P)
+    (hs : s ∈ shards) (hk : s'.key = s.key) (hnd : (shards.map (·.key)).Nodup) (hki : KInv flat akey shards)
+    (hnew : ∀ x ∈ flat s'.data, akey x = s'.key) : KInv flat akey (replaceShard s' shards) := by
+  obtain ⟨_, h2, _⟩ := replace_spec flat s' shards s hs hk.symm hnd
+  intro t ht x hx
+  rcases h2 t ht with h | h
+  · rw [h] at hx ⊢; exact hnew x hx
+  · exact hki t h x hx
+
+theorem arrive_iso {P β : Type} (o : BatchOps P) (flat : P → List β) (hl : BatchLaws o flat) (c : Cfg) (akey : β → Key)
+    (pr pr' : Proc P) (key : Key) (p : P) (es : List (Emit P)) (h : pr.arrive o c key p = some (pr', es))
+    (hp : PInv o c pr.shards) (hki : KInv flat akey pr.shards) (htag : ∀ x ∈ flat p, akey x = key) :
+    KInv flat akey pr'.shards ∧ ∀ e ∈ es, ∀ x ∈ flat e.p, akey x = e.key := by
+  simp only [Proc.arrive] at h
+  split at h
+  · next s hf =>
+    injection h with h
+    have hm : s ∈ pr.shards := List.mem_of_find?_eq_some hf
+    have hk : s.key = key := by simpa using List.find?_some hf
+    have ps := process_spec o flat hl c pr.now s p (hp.1 s hm).1
+    have st : ShardStep o c flat s (s.process o c pr.now p).1 (s.process o c pr.now p).2 (flat p) :=
+      ⟨ps.1, ps.2.2.2.1, ps.2.1, ps.2.2.1, fun e he => (ps.2.2.2.2 e he).1⟩
+    have si := step_iso o c flat akey s _ _ (flat p) st (hki s hm) (by intro x hx; rw [hk]; exact htag x hx)
+    have h1 : pr'.shards = replaceShard (s.process o c pr.now p).1 pr.shards := by
+      have := congrArg Prod.fst h; simp at this; rw [← this]
+    have h2 : es = (s.process o c pr.now p).2 := by
+      have := congrArg Prod.snd h; simpa using this.symm
+    rw [h1, h2]
+    exact ⟨kinv_replace flat akey pr.shards s _ hm st.key hp.2 hki si.1, si.2⟩
+  · next hf =>
+    split at h
+    · cases h
+    · injection h with h
+      have ps := process_spec o flat hl c pr.now { key := key, data := o.empty, cnt := 0, deadline := pr.now + c.timeout } p
+        (by simp [Shard.ok, hl.count_eq, hl.empty])
+      have st : ShardStep o c flat { key := key, data := o.empty, cnt := 0, deadline := pr.now + c.timeout }
+          (Shard.process o c pr.now { key := key, data := o.empty, cnt := 0, deadline := pr.now + c.timeout } p).1
+          (Shard.process o c pr.now { key := key, data := o.empty, cnt := 0, deadline := pr.now + c.timeout } p).2 (flat p) :=
+        ⟨ps.1, ps.2.2.2.1, ps.2.1, ps.2.2.1, fun e he => (ps.2.2.2.2 e he).1⟩
+      have si := step_iso o c flat akey _ _ _ (flat p) st (by intro x hx; simp [hl.empty] at hx) htag
+      have h1 : pr'.shards = pr.shards ++ [(Shard.process o c pr.now { key := key, data := o.empty, cnt := 0, deadline := pr.now + c.timeout } p).1] := by
+        have := congrArg Prod.fst h; simp at this; rw [← this]
+      have h2 : es = (Shard.process o c pr.now { key := key, data := o.empty, cnt := 0, deadline := pr.now + c.timeout } p).2 := by
+        have := congrArg Prod.snd h; simpa using this.symm
+      rw [h1, h2]
+      refine ⟨?_, si.2⟩
+      intro t ht x hx
+      rcases List.mem_append.mp ht with h' | h'
+      · exact hki t h' x hx
+      · simp only [List.mem_singleton] at h'; rw [h'] at hx ⊢; exact si.1 x hx
+
+theorem go_iso {P β : Type} (o : BatchOps P) (flat : P → List β) (hl : BatchLaws o flat) (c : Cfg) (hv : c.valid) (akey : β → Key)
+    (target : Nat) :
+    ∀ (fuel : Nat) (ss : List (Shard P)) (acc : List (Emit P)), PInv o c ss → KInv flat akey ss →
+      (∀ e ∈ acc, ∀ x ∈ flat e.p, akey x = e.key) →
+      KInv flat akey (Proc.advance.go o c target fuel ss acc).1 ∧
+      ∀ e ∈ (Proc.advance.go o c target fuel ss acc).2, ∀ x ∈ flat e.p, akey x = e.key := by
+  intro fuel
+  induction fuel with
+  | zero => intro ss acc _ hk ha; exact ⟨hk, ha⟩
+  | succ n ih =>
+    intro ss acc hp hk ha
+    simp only [Proc.advance.go]
+    split
+    · exact ⟨hk, ha⟩
+    · next s hf =>
+      have hm : s ∈ ss := List.mem_of_find?_eq_some hf
+      have ts := tick_spec o flat hl c hv s (hp.1 s hm)
+      have st : ShardStep o c flat s (s.tick o c).1 (s.tick o c).2 [] :=
+        ⟨ts.1, ts.2.2.2.2.1, by simpa using ts.2.2.1, ts.2.2.2.1, fun e he => (ts.2.2.2.2.2 e he).1⟩
+      have si := step_iso o c flat akey s _ _ [] st (hk s hm) (by intro x hx; simp at hx)
+      have lf := lift_step o c flat ss s _ _ [] hp hm st
+      refine ih _ _ lf.1 (kinv_replace flat akey ss s _ hm st.key hp.2 hk si.1) ?_
+      intro e he
+      rcases List.mem_append.mp he with h | h
+      · exact ha e h
+      · exact si.2 e h
+
+theorem runOps_iso {P β : Type} (o : BatchOps P) (flat : P → List β) (hl : BatchLaws o flat) (c : Cfg) (hv : c.valid)
+    (akey : β → Key) :
+    ∀ (ops : List (POp P)) (pr : Proc P), PInv o c pr.shards → KInv flat akey pr.shards → OpsTagged flat akey ops →
+      KInv flat akey (Proc.runOps o c flat pr ops).1.shards ∧
+      ∀ e ∈ (Proc.runOps o c flat pr ops).2.1, ∀ x ∈ flat e.p, akey x = e.key := by
+  intro ops
+  induction ops with
+  | nil => intro pr _ hk _; exact ⟨hk, by intro e he; simp [Proc.runOps] at he⟩
+  | cons op ops ih =>
+    intro pr hp hk ht
+    cases op with
+    | arrive key p =>
+      simp only [OpsTagged] at ht
+      simp only [Proc.runOps]
+      cases ha : pr.arrive o c key p with
+      | none => exact ih pr hp hk ht.2
+      | some x =>
+        obtain ⟨pr', es⟩ := x
+        have a := arrive_proc o flat hl c pr pr' key p es ha hp
+        have ai := arrive_iso o flat hl c akey pr pr' key p es ha hp hk ht.1
+        have r := ih pr' a.1 ai.1 ht.2
+        refine ⟨r.1, ?_⟩
+        intro e he
+        rcases List.mem_append.mp he with h | h
+        · exact ai.2 e h
+        · exact r.2 e h
+    | advance dt =>
+      simp only [OpsTagged] at ht
+      simp only [Proc.runOps]
+      have a := advance_proc o flat hl c hv pr dt hp
+      have ai : KInv flat akey (pr.advance o c dt).1.shards ∧ ∀ e ∈ (pr.advance o c dt).2, ∀ x ∈ flat e.p, akey x = e.key := by
+        simp only [Proc.advance]
+        split
+        · exact ⟨hk, by intro e he; simp at he⟩
+        · exact go_iso o flat hl c hv akey (pr.now + dt) _ pr.shards [] hp hk (by intro e he; simp at he)
+      have r := ih (pr.advance o c dt).1 a.1 ai.1 ht
+      refine ⟨r.1, ?_⟩
+      intro e he
+      rcases List.mem_append.mp he with h | h
+      · exact ai.2 e h
+      · exact r.2 e h
+
+/-- **metadata isolation, whole processor**: for every sequence of `Consume` calls (each with its own client-metadata
+group, any number of groups, any cardinality limit) and time steps, and the final shutdown: every item of every batch
+sent downstream arrived with exactly the metadata group the batch is sent with — items with different values of the
+configured keys never share a batch, and each batch's export metadata is its group's (routing by `Proc.arrive`, per-shard
+keys that never change, `find?`/`replaceShard` bookkeeping, all in one statement) -/
+theorem C17_proc_metadata_isolation {P β : Type} (o : BatchOps P) (flat : P → List β) (hl : BatchLaws o flat) (c : Cfg)
+    (hv : c.valid) (akey : β → Key) (ops : List (POp P)) (ht : OpsTagged flat akey ops) :
+    let r := Proc.runOps o c flat (Proc.init o c) ops
+    ∀ e ∈ r.2.1 ++ (r.1.shutdown o c).2, ∀ x ∈ flat e.p, akey x = e.key := by
+  intro r e he x hx
+  have hp0 : PInv o c (Proc.init o c).shards := by
+    simp only [Proc.init]
+    split
+    · exact ⟨by intro s hs; simp only [List.mem_singleton] at hs; subst hs; simp [Shard.ok, hl.count_eq, hl.empty, due], by simp⟩
+    · exact ⟨by intro s hs; simp at hs, by simp⟩
+  have hk0 : KInv flat akey (Proc.init o c).shards := by
+    intro s hs y hy
+    simp only [Proc.init] at hs
+    split at hs
+    · simp only [List.mem_singleton] at hs; subst hs; simp [hl.empty] at hy
+    · simp at hs
+  have hr := runOps_spec o flat hl c hv ops (Proc.init o c) hp0
+  have hi := runOps_iso o flat hl c hv akey ops (Proc.init o c) hp0 hk0 ht
+  rcases List.mem_append.mp he with h | h
+  · exact hi.2 e h x hx
+  · simp only [Proc.shutdown, List.mem_flatMap, List.mem_map] at h
+    obtain ⟨_, ⟨s, hs, rfl⟩, hes⟩ := h
+    have ss := shutdown_spec o flat hl c hv r.1.now s (hr.1.1 s hs)
+    rw [ss.2.2 e hes]
+    apply hi.1 s hs
+    exact ss.1.subset (List.mem_flatMap.mpr ⟨e, hes, hx⟩)
+
+
+/-! ### the timeout clause for the whole processor -/
+
+/-- firings a shard still owes before virtual time `target` -/
+def need {P : Type} (c : Cfg) (target : Nat) (s : Shard P) : Nat :=
+  if s.deadline ≤ target then (target - s.deadline) / c.timeout + 1 else 0
+
+theorem need_tick {P : Type} (o : BatchOps P) (c : Cfg) (hT : 0 < c.timeout) (target : Nat) (s : Shard P)
+    (h : s.deadline ≤ target) : need c target (s.tick o c).1 + 1 = need c target s := by
+  have hd : (s.tick o c).1.deadline = s.deadline + c.timeout := by simp only [Shard.tick]; split <;> rfl
+  simp only [need, hd, h, if_true]
+  by_cases h2 : s.deadline + c.timeout ≤ target
+  · simp only [h2, if_true]
+    have : (target - s.deadline) / c.timeout = (target - s.deadline - c.timeout) / c.timeout + 1 :=
+      Nat.div_eq_sub_div hT (by omega)
+    have e : target - (s.deadline + c.timeout) = target - s.deadline - c.timeout := by omega
+    rw [e]; omega
+  · simp only [h2, if_false]
+    have : (target - s.deadline) / c.timeout = 0 := Nat.div_eq_of_lt (by omega)
+    omega
+
+theorem sum_replace {P : Type} (g : Shard P → Nat) (s' : Shard P) :
+    ∀ (shards : List (Shard P)) (s : Shard P), s ∈ shards → s.key = s'.key → (shards.map (·.key)).Nodup →
+      sumBy g (replaceShard s' shards) + g s = sumBy g shards + g s' := by
+  intro shards
+  induction shards with
+  | nil => intro s hs; simp at hs
+  | cons a l ih =>
+    intro s hs hk hnd
+    simp only [List.map_cons, List.nodup_cons] at hnd
+    simp only [replaceShard]
+    by_cases e : a.key = s'.key
+    · have hsa : s = a := by
+        rcases List.mem_cons.mp hs with h | h
+        · exact h
+        · exfalso; apply hnd.1; rw [e, ← hk]; exact List.mem_map.mpr ⟨s, h, rfl⟩
+      subst hsa
+      simp only [e, if_true, sumBy_cons]; omega
+    · have hsl : s ∈ l := by
+        rcases List.mem_cons.mp hs with h | h
+        · exact absurd (by rw [← h, hk]) e
+        · exact h
+      have := ih s hsl hk hnd.2
+      simp only [e, if_false, sumBy_cons]; omega
+
+/-- the timer loop of `advance` runs to completion: afterwards no timer is due before `target` -/
+theorem go_complete {P β : Type} (o : BatchOps P) (flat : P → List β) (hl : BatchLaws o flat) (c : Cfg) (hv : c.valid)
+    (hT : 0 < c.timeout) (target : Nat) :
+    ∀ (fuel : Nat) (ss : List (Shard P)) (acc : List (Emit P)), PInv o c ss → sumBy (need c target) ss ≤ fuel →
+      ∀ s ∈ (Proc.advance.go o c target fuel ss acc).1, target < s.deadline := by
+  intro fuel
+  induction fuel with
+  | zero =>
+    intro ss acc _ hmu s hs
+    simp only [Proc.advance.go] at hs
+    have h0 : sumBy (need c target) ss = 0 := by omega
+    have : need c target s = 0 := by
+      have : ∀ (l : List (Shard P)), sumBy (need c target) l = 0 → ∀ t ∈ l, need c target t = 0 := by
+        intro l
+        induction l with
+        | nil => intro _ t ht; simp at ht
+        | cons a l ih =>
+          intro h t ht
+          rw [sumBy_cons] at h
+          rcases List.mem_cons.mp ht with h' | h'
+          · subst h'; omega
+          · exact ih (by omega) t h'
+      exact this ss h0 s hs
+    by_cases hd : s.deadline ≤ target
+    · simp [need, hd] at this
+    · omega
+  | succ n ih =>
+    intro ss acc hp hmu s hs
+    simp only [Proc.advance.go] at hs
+    split at hs
+    · next hf =>
+      have := List.find?_eq_none.mp hf s hs
+      simp only [decide_eq_true_eq] at this
+      omega
+    · next t hf =>
+      have hm : t ∈ ss := List.mem_of_find?_eq_some hf
+      have hdue : t.deadline ≤ target := by simpa using List.find?_some hf
+      have ts := tick_spec o flat hl c hv t (hp.1 t hm)
+      have st : ShardStep o c flat t (t.tick o c).1 (t.tick o c).2 [] :=
+        ⟨ts.1, ts.2.2.2.2.1, by simpa using ts.2.2.1, ts.2.2.2.1, fun e he => (ts.2.2.2.2.2 e he).1⟩
+      have lf := lift_step o c flat ss t _ _ [] hp hm st
+      have hsum := sum_replace (need c target) (t.tick o c).1 ss t hm st.key.symm hp.2
+      have hn := need_tick o c hT target t hdue
+      exact ih _ _ lf.1 (by omega) s hs
+
+/-- per-shard deadlines relative to the processor clock `now` (configuration with a timer) -/
+def TPInv {P β : Type} (flat : P → List β) (c : Cfg) (arr : β → Nat) (now : Nat) (shards : List (Shard P)) : Prop :=
+  ∀ s ∈ shards, (∀ x ∈ flat s.data, s.deadline ≤ arr x + c.timeout) ∧ s.deadline ≤ now + c.timeout ∧ now ≤ s.deadline
+
+theorem tpinv_replace {P β : Type} (flat : P → List β) (c : Cfg) (arr : β → Nat) (now : Nat) (shards : List (Shard P))
+    (s s' : Shard P) (hs : s ∈ shards) (hk : s'.key = s.key) (hnd : (shards.map (·.key)).Nodup) (ht : TPInv flat c arr now shards)
+    (hnew : (∀ x ∈ flat s'.data, s'.deadline ≤ arr x + c.timeout) ∧ s'.deadline ≤ now + c.timeout ∧ now ≤ s'.deadline) :
+    TPInv flat c arr now (replaceShard s' shards) := by
+  obtain ⟨_, h2, _⟩ := replace_spec flat s' shards s hs hk.symm hnd
+  intro t htm
+  rcases h2 t htm with h | h
+  · rw [h]; exact hnew
+  · exact ht t h
+
+theorem go_timed {P β : Type} (o : BatchOps P) (flat : P → List β) (hl : BatchLaws o flat) (c : Cfg) (hv : c.valid)
+    (arr : β → Nat) (now0 target : Nat) :
+    ∀ (fuel : Nat) (ss : List (Shard P)) (acc : List (Emit P)), PInv o c ss →
+      (∀ s ∈ ss, (∀ x ∈ flat s.data, s.deadline ≤ arr x + c.timeout) ∧ s.deadline ≤ target + c.timeout ∧ now0 ≤ s.deadline) →
+      (∀ e ∈ acc, ∀ x ∈ flat e.p, e.t ≤ arr x + c.timeout) →
+      (∀ s ∈ (Proc.advance.go o c target fuel ss acc).1,
+        (∀ x ∈ flat s.data, s.deadline ≤ arr x + c.timeout) ∧ s.deadline ≤ target + c.timeout ∧ now0 ≤ s.deadline) ∧
+      ∀ e ∈ (Proc.advance.go o c target fuel ss acc).2, ∀ x ∈ flat e.p, e.t ≤ arr x + c.timeout := by
+  intro fuel
+  induction fuel with
+  | zero => intro ss acc _ h ha; exact ⟨h, ha⟩
+  | succ n ih =>
+    intro ss acc hp h ha
+    simp only [Proc.advance.go]
+    split
+    · exact ⟨h, ha⟩
+    · next t hf =>
+      have hm : t ∈ ss := List.mem_of_find?_eq_some hf
+      have hdue : t.deadline ≤ target := by simpa using List.find?_some hf
+      have ts := tick_spec o flat hl c hv t (hp.1 t hm)
+      have st : ShardStep o c flat t (t.tick o c).1 (t.tick o c).2 [] :=
+        ⟨ts.1, ts.2.2.2.2.1, by simpa using ts.2.2.1, ts.2.2.2.1, fun e he => (ts.2.2.2.2.2 e he).1⟩
+      have lf := lift_step o c flat ss t _ _ [] hp hm st
+      have hnil := flat_nil_of_cnt o flat hl _ ts.1.1 ts.2.1
+      have hd : (t.tick o c).1.deadline = t.deadline + c.timeout := by simp only [Shard.tick]; split <;> rfl
+      have ht := h t hm
+      obtain ⟨_, h2, _⟩ := replace_spec flat (t.tick o c).1 ss t hm st.key.symm hp.2
+      refine ih _ _ lf.1 ?_ ?_
+      · intro u hu
+        rcases h2 u hu with h' | h'
+        · rw [h']
+          refine ⟨by intro x hx; rw [hnil] at hx; simp at hx, by rw [hd]; omega, by rw [hd]; omega⟩
+        · exact h u h'
+      · intro e he
+        rcases List.mem_append.mp he with h' | h'
+        · exact ha e h'
+        · intro x hx
+          have hx' : x ∈ flat t.data := by
+            apply ts.2.2.1.subset
+            exact List.mem_append.mpr (Or.inl (List.mem_flatMap.mpr ⟨e, h', hx⟩))
+          have := ht.1 x hx'
+          have := (ts.2.2.2.2.2 e h').2
+          omega
+
+/-- arrival stamps are the processor's clock at the `Consume` call -/
+def ArrTagged {P β : Type} (o : BatchOps P) (c : Cfg) (flat : P → List β) (arr : β → Nat) : Proc P → List (POp P) → Prop
+  | _, [] => True
+  | pr, .arrive key p :: ops =>
+    (∀ x ∈ flat p, arr x = pr.now) ∧
+      (match pr.arrive o c key p with
+       | some (pr', _) => ArrTagged o c flat arr pr' ops
+       | none => ArrTagged o c flat arr pr ops)
+  | pr, .advance dt :: ops => ArrTagged o c flat arr (pr.advance o c dt).1 ops
+
+theorem arrive_now {P : Type} (o : BatchOps P) (c : Cfg) (pr pr' : Proc P) (key : Key) (p : P) (es : List (Emit P))
+    (h : pr.arrive o c key p = some (pr', es)) : pr'.now = pr.now := by
+  simp only [Proc.arrive] at h
+  split at h
+  · injection h with h; have := congrArg Prod.fst h; simp at this; rw [← this]
+  · split at h
+    · cases h
+    · injection h with h; have := congrArg Prod.fst h; simp at this; rw [← this]
+
+theorem arrive_timed {P β : Type} (o : BatchOps P) (flat : P → List β) (hl : BatchLaws o flat) (hf : Fifo o flat) (c : Cfg)
+    (hv : c.valid) (ht : hasTimer c = true) (arr : β → Nat) (pr pr' : Proc P) (key : Key) (p : P) (es : List (Emit P))
+    (h : pr.arrive o c key p = some (pr', es)) (hp : PInv o c pr.shards) (hti : TPInv flat c arr pr.now pr.shards)
+    (htag : ∀ x ∈ flat p, arr x = pr.now) :
+    TPInv flat c arr pr.now pr'.shards ∧ ∀ e ∈ es, ∀ x ∈ flat e.p, e.t ≤ arr x + c.timeout := by
+  simp only [Proc.arrive] at h
+  split at h
+  · next s hfnd =>
+    injection h with h
+    have hm : s ∈ pr.shards := List.mem_of_find?_eq_some hfnd
+    have hs := hti s hm
+    have pt := process_timed o flat hl hf c hv arr pr.now pr.now s p (hp.1 s hm) hs.1 hs.2.1 (Nat.le_refl _) hs.2.2 htag
+    have ps := process_spec o flat hl c pr.now s p (hp.1 s hm).1
+    have h1 : pr'.shards = replaceShard (s.process o c pr.now p).1 pr.shards := by
+      have := congrArg Prod.fst h; simp at this; rw [← this]
+    have h2 : es = (s.process o c pr.now p).2 := by
+      have := congrArg Prod.snd h; simpa using this.symm
+    rw [h1, h2]
+    exact ⟨tpinv_replace flat c arr pr.now pr.shards s _ hm ps.2.2.2.1 hp.2 hti ⟨pt.2.1, pt.2.2.1, pt.2.2.2⟩, pt.1⟩
+  · next hfnd =>
+    split at h
+    · cases h
+    · injection h with h
+      have pt := process_timed o flat hl hf c hv arr pr.now pr.now
+        { key := key, data := o.empty, cnt := 0, deadline := pr.now + c.timeout } p
+        ⟨by simp [Shard.ok, hl.count_eq, hl.empty], by simp [due]⟩ (by intro x hx; simp [hl.empty] at hx) (Nat.le_refl _)
+        (Nat.le_refl _) (Nat.le_add_right _ _) htag
+      have h1 : pr'.shards = pr.shards ++ [(Shard.process o c pr.now { key := key, data := o.empty, cnt := 0, deadline := pr.now + c.timeout } p).1] := by
+        have := congrArg Prod.fst h; simp at this; rw [← this]
+      have h2 : es = (Shard.process o c pr.now { key := key, data := o.empty, cnt := 0, deadline := pr.now + c.timeout } p).2 := by
+        have := congrArg Prod.snd h; simpa using this.symm
+      rw [h1, h2]
+      refine ⟨?_, pt.1⟩
+      intro t htm
+      rcases List.mem_append.mp htm with h' | h'
+      · exact hti t h'
+      · simp only [List.mem_singleton] at h'; rw [h']; exact ⟨pt.2.1, pt.2.2.1, pt.2.2.2⟩
+
+theorem runOps_timed {P β : Type} (o : BatchOps P) (flat : P → List β) (hl : BatchLaws o flat) (hf : Fifo o flat) (c : Cfg)
+    (hv : c.valid) (ht : hasTimer c = true) (arr : β → Nat) :
+    ∀ (ops : List (POp P)) (pr : Proc P), PInv o c pr.shards → TPInv flat c arr pr.now pr.shards → ArrTagged o c flat arr pr ops →
+      TPInv flat c arr (Proc.runOps o c flat pr ops).1.now (Proc.runOps o c flat pr ops).1.shards ∧
+      ∀ e ∈ (Proc.runOps o c flat pr ops).2.1, ∀ x ∈ flat e.p, e.t ≤ arr x + c.timeout := by
+  have hT : 0 < c.timeout := by
+    simp only [hasTimer, Bool.and_eq_true, bne_iff_ne] at ht; omega
+  intro ops
+  induction ops with
+  | nil => intro pr _ hti _; exact ⟨hti, by intro e he; simp [Proc.runOps] at he⟩
+  | cons op ops ih =>
+    intro pr hp hti htag
+    cases op with
+    | arrive key p =>
+      simp only [ArrTagged] at htag
+      simp only [Proc.runOps]
+      cases ha : pr.arrive o c key p with
+      | none =>
+        rw [ha] at htag
+        exact ih pr hp hti htag.2
+      | some x =>
+        obtain ⟨pr', es⟩ := x
+        rw [ha] at htag
+        have a := arrive_proc o flat hl c pr pr' key p es ha hp
+        have at' := arrive_timed o flat hl hf c hv ht arr pr pr' key p es ha hp hti htag.1
+        have hn := arrive_now o c pr pr' key p es ha
+        have r := ih pr' a.1 (by rw [hn]; exact at'.1) htag.2
+        refine ⟨r.1, ?_⟩
+        intro e he
+        rcases List.mem_append.mp he with h | h
+        · exact at'.2 e h
+        · exact r.2 e h
+    | advance dt =>
+      simp only [ArrTagged] at htag
+      simp only [Proc.runOps]
+      have a := advance_proc o flat hl c hv pr dt hp
+      have hnt : (!hasTimer c) = false := by simp [ht]
+      have hadv : TPInv flat c arr (pr.advance o c dt).1.now (pr.advance o c dt).1.shards ∧
+          ∀ e ∈ (pr.advance o c dt).2, ∀ x ∈ flat e.p, e.t ≤ arr x + c.timeout := by
+        simp only [Proc.advance, hnt, Bool.false_eq_true, if_false]
+        have hmu : sumBy (need c (pr.now + dt)) pr.shards ≤ (dt / c.timeout + 2) * (pr.shards.length + 1) := by
+          have hone : ∀ a : Shard P, pr.now ≤ a.deadline → need c (pr.now + dt) a ≤ dt / c.timeout + 2 := by
+            intro a ha
+            simp only [need]
+            split
+            · have : (pr.now + dt - a.deadline) / c.timeout ≤ dt / c.timeout := Nat.div_le_div_right (by omega)
+              omega
+            · exact Nat.zero_le _
+          generalize dt / c.timeout + 2 = k at hone ⊢
+          have : ∀ (l : List (Shard P)), (∀ s ∈ l, pr.now ≤ s.deadline) → sumBy (need c (pr.now + dt)) l ≤ k * l.length := by
+            intro l
+            induction l with
+            | nil => intro _; simp [sumBy_nil]
+            | cons a l ihl =>
+              intro hall
+              rw [sumBy_cons, List.length_cons, Nat.mul_succ]
+              have h1 := ihl (fun s hs => hall s (List.mem_cons_of_mem _ hs))
+              have h2 := hone a (hall a (List.mem_cons_self ..))
+              omega
+          have := this pr.shards (fun s hs => (hti s hs).2.2)
+          rw [Nat.mul_succ]; omega
+        have hc := go_complete o flat hl c hv hT (pr.now + dt) _ pr.shards [] hp hmu
+        have hg := go_timed o flat hl c hv arr pr.now (pr.now + dt) ((dt / c.timeout + 2) * (pr.shards.length + 1)) pr.shards [] hp
+          (by intro s hs; have := hti s hs; exact ⟨this.1, by omega, this.2.2⟩) (by intro e he; simp at he)
+        refine ⟨?_, hg.2⟩
+        intro s hs
+        have h1 := hg.1 s hs
+        have h2 := hc s hs
+        exact ⟨h1.1, h1.2.1, by omega⟩
+      have r := ih (pr.advance o c dt).1 a.1 hadv.1 htag
+      refine ⟨r.1, ?_⟩
+      intro e he
+      rcases List.mem_append.mp he with h | h
+      · exact hadv.2 e h
+      · exact r.2 e h
+
+/-- **timeout, whole processor** (virtual time, configuration with a timer): for every validated configuration, every
+sequence of `Consume` calls with arbitrary metadata groups and of time steps — `advance` fires every shard's timer at its
+deadline and provably runs to completion (`go_complete`) — and the final shutdown: every item of every batch sent
+downstream leaves no later than `timeout` after the processor's clock at its arrival -/
+theorem C17_proc_timeout {P β : Type} (o : BatchOps P) (flat : P → List β) (hl : BatchLaws o flat) (hf : Fifo o flat) (c : Cfg)
+    (hv : c.valid) (ht : hasTimer c = true) (arr : β → Nat) (ops : List (POp P))
+    (htag : ArrTagged o c flat arr (Proc.init o c) ops) :
+    let r := Proc.runOps o c flat (Proc.init o c) ops
+    ∀ e ∈ r.2.1 ++ (r.1.shutdown o c).2, ∀ x ∈ flat e.p, e.t ≤ arr x + c.timeout := by
+  intro r e he x hx
+  have hp0 : PInv o c (Proc.init o c).shards := by
+    simp only [Proc.init]
+    split
+    · exact ⟨by intro s hs; simp only [List.mem_singleton] at hs; subst hs; simp [Shard.ok, hl.count_eq, hl.empty, due], by simp⟩
+    · exact ⟨by intro s hs; simp at hs, by simp⟩
+  have ht0 : TPInv flat c arr (Proc.init o c).now (Proc.init o c).shards := by
+    intro s hs
+    simp only [Proc.init] at hs ⊢
+    split at hs
+    · simp only [List.mem_singleton] at hs; subst hs
+      exact ⟨by intro y hy; simp [hl.empty] at hy, by simp, by simp⟩
+    · simp at hs
+  have hr := runOps_spec o flat hl c hv ops (Proc.init o c) hp0
+  have hti := runOps_timed o flat hl hf c hv ht arr ops (Proc.init o c) hp0 ht0 htag
+  rcases List.mem_append.mp he with h | h
+  · exact hti.2 e h x hx
+  · simp only [Proc.shutdown, List.mem_flatMap, List.mem_map] at h
+    obtain ⟨_, ⟨s, hs, rfl⟩, hes⟩ := h
+    have ss := shutdown_spec o flat hl c hv r.1.now s (hr.1.1 s hs)
+    have hx' : x ∈ flat s.data := ss.1.subset (List.mem_flatMap.mpr ⟨e, hes, hx⟩)
+    have hsd := hti.1 s hs
+    have := hsd.1 x hx'
+    -- the shutdown batch is stamped with the processor's clock, which is not past the shard's deadline
+    have het : e.t = (Proc.runOps o c flat (Proc.init o c) ops).1.now := by
+      simp only [Shard.shutdown] at hes
+      split at hes
+      · simp only [List.mem_singleton] at hes; subst hes
+        exact (send_spec o flat hl c _ s (hr.1.1 s hs).1).2.2.2.2.2.2.2
+      · simp at hes
+    have := hsd.2.2
+    omega
+
 end OtelVerif.C17
